@@ -29,6 +29,8 @@ type GenOpts struct {
 	OddPropose       int // per-mille probability of an unknown proposer
 	EVM              bool
 	EqualPower       bool
+	FundedValidators bool // every genesis validator is also an asset holder
+	UnfundedLast     bool // the last genesis validator (of at least two) holds nothing and is never picked by the random generator
 	OverLimitGenesis bool // allow more genesis validators than MaxValidatorCnt (C01 quantifies over every genesis)
 }
 
@@ -111,9 +113,22 @@ func NewGen(rng *rand.Rand, seed int64, o GenOpts, p DParams) *Gen {
 		cfg.Validators = append(cfg.Validators, GenVal{Key: k, Power: pw})
 		g.add(k)
 	}
+	var unfunded string
+	if n := len(cfg.Validators); o.UnfundedLast && n >= 2 {
+		k := cfg.Validators[n-1].Key
+		unfunded = k.A()
+		g.All = g.All[:len(g.All)-1] // known by key, never picked as sender or receiver
+	}
 	g.Anchor = cfg.Validators[0].Key.A()
-	// the validators also hold funds so that they can pay fees
-	for _, v := range cfg.Validators {
+	// the validators also hold funds so that they can pay fees - except in a quarter of the genesis files, where (as in
+	// the file written by the repository's own init command) some validators are not among the asset holders and
+	// have no account until somebody pays them. Decided by a PRNG of its own so that the main stream is not shifted.
+	pr := rand.New(rand.NewSource(seed*7919 + 13))
+	poorGenesis := !o.FundedValidators && pr.Intn(4) == 0
+	for i, v := range cfg.Validators {
+		if (poorGenesis && i > 0 && pr.Intn(2) == 0) || v.Key.A() == unfunded {
+			continue
+		}
 		cfg.Holders = append(cfg.Holders, GenHolder{Key: v.Key, Balance: e18(int64(50 + rng.Intn(500)))})
 	}
 	for i := 0; i < o.NHolders; i++ {
